@@ -99,7 +99,7 @@ def make_cfg(rng, prop, tier):
     streams = []
     energy = prop == 'C02'
     for i in range(n_streams):
-        pkg = rng.choice(['A', 'A', 'A', 'B', 'C'])
+        pkg = rng.choice(['A', 'A', 'A2', 'A2', 'B', 'C'] if prop == 'C10' else ['A', 'A', 'A', 'B', 'C'])
         kind = rng.choice(['single', 'single', 'multi'])
         spec = {'name': f's{i}', 'pkg': pkg, 'kind': kind,
                 'T': rng.choice(T_ALPHABET), 'P': rng.choice(P_ALPHABET)}
@@ -112,6 +112,8 @@ def make_cfg(rng, prop, tier):
         else:
             k = rng.randint(1, 4)
             phases = ['g', 'l'] if energy else rng.sample(PHASES, k)
+            if prop == 'C10' and rng.random() < 0.6:
+                phases = ['g', 'l']
             spec['phases'] = phases
             spec['flows'] = {p: [rng.choice(FLOW_ALPHABET + [0.0] * 6) for _ in range(n)] for p in phases}
         streams.append(spec)
@@ -254,6 +256,17 @@ class StreamWorld(BaseWorld):
     def group_size(self, name):
         ids = self.related_groups({self.fgroup[name]})
         return sum(1 for n, v in self.fgroup.items() if v in ids and n in self.streams)
+
+    def is_attached_view_of(self, v, parent):
+        m = self.meta.get(v, {})
+        return bool(m.get('view_of')) and m['view_of'][0] == parent and not m.get('detached')
+
+    def partners_not_kept_consistent(self, name):
+        """partners other than the stream's own attached per-phase views (those follow the stream's data:
+        MultiStream._update_phase_streams); proxies, flow proxies and linked streams do not (KF-C13-1)"""
+        ids = self.related_groups({self.fgroup[name]})
+        return [n for n, v in self.fgroup.items()
+                if v in ids and n in self.streams and n != name and not self.is_attached_view_of(n, name)]
 
     def view_group(self, parent, phase):
         key = (self.fgroup[parent], phase)
@@ -551,7 +564,7 @@ class StreamWorld(BaseWorld):
                 return 'C12-accessor-relabels-phase'
         if 'shared-representation-change' in self.regions:
             for n in self.representation_change_targets(ev):
-                if n in self.fgroup and self.group_size(n) > 1:
+                if n in self.fgroup and self.partners_not_kept_consistent(n):
                     return 'shared-representation-change'
         return None
 
@@ -786,7 +799,7 @@ class StreamWorld(BaseWorld):
         pk = self.pk(nm[0])
         return {'stream': nm[0], 'phase': r.choice(list(st.phases)), 'chem': r.choice(pk.ids),
                 'value': r.choice([x for x in FLOW_ALPHABET if x]), 'via': r.choice(['view', 'parent']),
-                'T': r.choice(T_ALPHABET)}
+                'basis': r.choice(['mol', 'mol', 'mass']), 'T': r.choice(T_ALPHABET)}
 
     def gen_save_data(self, r):
         return {'stream': self.names(r)[0], 'slot': f'd{r.randint(0, 2)}'}
@@ -1188,6 +1201,12 @@ class StreamWorld(BaseWorld):
             return False
         if self.prop == 'C13' and self.is_view_locked(recv):
             return False      # a per-phase stream as the receiver of a whole-stream operation: not generated for C13
+        for i in ev['inlets']:
+            # an inlet that is PART of the receiver's own data (a phase view of the receiver, or the receiver is
+            # a view of the inlet): the property covers "the receiver is itself one of the inlets", not partial
+            # self-aliases
+            if i != recv and (self.is_view_locked(i) or self.is_view_locked(recv)) and self.may_share(i, recv):
+                return False
         return True
 
     def pre_sum(self, ev):
@@ -1400,6 +1419,24 @@ class StreamWorld(BaseWorld):
                 self.pgroup[n] = self.new_group()
                 self.iclass[n] = self.new_group()
             self.kind_cache[n] = k
+        # per-phase views: they follow their parent while it stays multi-phase and keeps their phase;
+        # a collapse to single-phase form (or dropping the phase) leaves them on the old rows
+        for v, m in self.meta.items():
+            if m.get('view_of') and not m.get('detached') and v in self.streams:
+                par, ph = m['view_of']
+                if par not in self.streams:
+                    continue
+                if not self.is_multi(par) or ph not in self.streams[par].phases:
+                    # all views of that row keep sharing the (old) row among themselves: they keep their row
+                    # group, which is cut loose from the parent's group
+                    m['detached'] = True
+                    vg = self.fgroup[v]
+                    key = self.vparent.pop(vg, None)
+                    if key is not None and self.vgroups.get(key) == vg:
+                        del self.vgroups[key]
+                else:
+                    self.fgroup[v] = self.view_group(par, ph)
+                    self.tgroup[v] = self.tgroup[par]
         if self.prop == 'C11':
             for name in sorted(self.touched):
                 if name in self.streams:
@@ -2241,7 +2278,16 @@ class StreamWorld(BaseWorld):
             return self.unexpected(ev, r, 'view_write')
         v = r[1]
         self.touch(n)
-        if ev['via'] == 'view':
+        if ev.get('basis') == 'mass':
+            # the same through the mass views of either side (kg/hr), compared in kmol/hr
+            MWc = self.pk(n).MW[self.pk(n).pos[chem]]
+            if ev['via'] == 'view':
+                v.imass[chem] = val * MWc
+                got = ms.imol[ph, chem]
+            else:
+                ms.imol[ph, chem] = val
+                got = v.imass[chem] / MWc
+        elif ev['via'] == 'view':
             v.imol[chem] = val
             got = ms.imol[ph, chem]
         else:
@@ -2521,18 +2567,36 @@ class StreamWorld(BaseWorld):
         if self.prop != 'C02':
             return 'ok'
         after = self.project(recv)
-        if not (250.0 <= after.T <= 500.0) or not all(ph in ('l', 'g') for ph in after.phases):
+        outside = not (250.0 <= after.T <= 500.0) or not all(ph in ('l', 'g') for ph in after.phases)
+        if outside:
+            # the result left the stated window (too much / too little heat for the receiver's phase).  The
+            # property's relation is still judged when the models can be evaluated there: a call that
+            # returns normally must have put the inlets' enthalpy into the receiver, wherever T ended up
             self.stats['left_domain'] += 1
-            return 'left-domain'
+            try:
+                with np.errstate(all='ignore'):
+                    h_probe = self.H_indep(recv, after)
+                if not np.isfinite(h_probe) or after.T <= 0 and False:
+                    return 'left-domain'
+            except Exception:
+                return 'left-domain'
         want = np.zeros(self.pk(recv).n)
         for n in inlets:
             want = want + self.mapped(n, recv, snaps[n].total())
         if not close(after.total(), want):
             self.stats['mix_energy_material_mismatch'] += 1
             return 'material-mismatch'      # C01's subject; the energy clause is not judged on other material
-        H_out = self.H_indep(recv, after)
-        C = self.C_indep(recv, after)
+        try:
+            with np.errstate(all='ignore'):
+                H_out = self.H_indep(recv, after)
+                C = self.C_indep(recv, after)
+        except Exception:
+            return 'left-domain'
+        if not (np.isfinite(H_out) and np.isfinite(C)):
+            return 'left-domain'
         bound = self.H_bound(C, H_in + Q)
+        if outside:
+            bound = max(bound, 1e-6 * (abs(H_in + Q) + abs(H_out)))     # extrapolated models: looser, still tight
         self.note_calibration('mix', abs(H_out - (H_in + Q)), abs(C) * 1e-6)
         if abs(H_out - (H_in + Q)) > bound:
             self.fail('mix-enthalpy', f'{recv}.mix_from({inlets}, Q={Q!r}): enthalpy flow after is {H_out!r}, inlets + Q '
